@@ -432,7 +432,9 @@ Section Obj.
     subst b. cbn [bind] in H. cbv zeta in H.
     set (prop_names := map sname (cslots c)) in *.
     destruct (filter (fun k => negb (mem_ustr k prop_names)) (akeys kwargs)) as [|x xs] eqn:Eextra; [|discriminate].
-    simpl in H.
+    rewrite andb_false_r in H. simpl in H.
+    replace (if vr_flag_from_stored vr then false else false) with false in H by (destruct (vr_flag_from_stored vr); auto).
+    rewrite andb_false_r in H.
     destruct (match cver c with V20 => false | V21 => false end) eqn:Ev; [destruct (cver c); discriminate|].
     replace (match cver c with V20 => false | V21 => negb true end) with false in H by (destruct (cver c); auto).
     rewrite app_nil_r in H.
